@@ -226,7 +226,9 @@ fn build_map(p: &Prog) -> SourceMap {
                 }
                 None => !0,
             };
-            RawToken { dst_line: t.l, dst_col: t.c, src_line: i as u32, src_col: 0, src_id: 0, name_id, is_range: false }
+            // every fifth token is a range mapping: the range flag shifts reported *original* columns
+            // inside the range, it must not influence which minified text a token stands for
+            RawToken { dst_line: t.l, dst_col: t.c, src_line: i as u32, src_col: 0, src_id: 0, name_id, is_range: (i * 7 + p.toks.len()) % 5 == 0 }
         })
         .collect();
     SourceMap::new(None, raw, names.iter().map(|s| s.as_str().into()).collect(), vec!["orig.js".into()], None)
@@ -265,6 +267,7 @@ pub fn run(ctx: &mut Ctx) {
         ctx.sample(|| prog_json(&p));
         ctx.bucket_if(long, "long-program(walk limit)");
         ctx.bucket_if(lines.len() > 1, "multi-line-program");
+        ctx.bucket_if(!p.toks.is_empty(), "map-with-range-tokens");
         let sm = build_map(&p);
         let sv = SourceView::new(p.text.as_str().into());
         // an index map with the same map as its only section at (0,0)
